@@ -142,8 +142,8 @@ def run(ctx):
                   src(gs[0].value) if gs else None, rs)
     # ------------------------------------------------------------------------------------------------ classic
     ctx.rule("R36.2", "nifty.cl.extra.minisanity: per key and sample, with x the normalised residual (resp. the latent sample), the "
-                      "ignored entries are the NaN and the exactly-zero ones; 'redchisq' accumulates nansum(|x|^2)/n, 'scmean' "
-                      "nansum(x)/n with n = size - #NaN - #zero, 'ndof' reports n and 'nigndof' #NaN + #zero; data residuals come "
+                      "ignored entries are the NaN and the exactly-zero ones; 'redchisq' accumulates nansum(|x|^2)/ndof, 'scmean' "
+                      "nansum(x)/n with n = size - #NaN - #zero and ndof = n for real, 2n for complex x (as nifty.re does), 'ndof' reports ndof and 'nigndof' #NaN + #zero; data residuals come "
                       "from likelihood_energy.normalized_residual, latent variables are the samples themselves", floor=6)
     ex = m.module(EX)
     fi = ex.functions.get("minisanity")
@@ -206,7 +206,10 @@ def run(ctx):
     want_nan = f"np.sum(np.isnan({arr}))"
     want_zero = f"np.sum({arr}==0)"
     want_n = f"{arr}.size-{want_nan}-{want_zero}"
-    for role, wanted, what in (("ndof", (want_n,), "n = size - #NaN - #zero"),
+    # degrees of freedom: two per complex entry (|x|^2 of a normalised complex residual has expectation 2)
+    want_dof = (f"2*({want_n})ifnp.iscomplexobj({arr})else{want_n}", f"{want_n}ifnp.isrealobj({arr})else2*({want_n})",
+                f"2*{want_n}ifnp.iscomplexobj({arr})else{want_n}", f"({want_n})*(2ifnp.iscomplexobj({arr})else1)")
+    for role, wanted, what in (("ndof", want_dof, "degrees of freedom = n (real) / 2n (complex), n = size - #NaN - #zero"),
                                ("nigndof", (f"{want_nan}+{want_zero}", f"{want_zero}+{want_nan}"), "#NaN + #zero")):
         ss = [(n, a) for n, a in stores if base_of(a.targets[0]) == roles[role]]
         if len(ss) != 1:
@@ -215,7 +218,7 @@ def run(ctx):
         n, a = ss[0]
         t = norm(inl(n, a.value))
         ctx.check("R36.2", f"{fi.key}::'{role}' = {what}", t in wanted, t, fi, a)
-    for role, num, what in (("redchisq", (f"np.nansum(abs({arr})**2)", f"np.nansum(np.abs({arr})**2)"), "nansum(|x|^2)/n"),
+    for role, num, what in (("redchisq", (f"np.nansum(abs({arr})**2)", f"np.nansum(np.abs({arr})**2)"), "nansum(|x|^2)/ndof (ndof = 2n for complex x)"),
                             ("scmean", (f"np.nansum({arr})",), "nansum(x)/n")):
         aa = [(n, c) for n, c in adds if base_of(c.func.value) == roles[role]]
         if not aa:
@@ -229,7 +232,8 @@ def run(ctx):
             t = norm(inl(n, e2))
             at = known_atoms(cfg, n.id)
             zero_case = any(pol and "==0" in norm(tt) and "lsize" in norm(tt) or (pol and norm(tt).endswith("==0")) for tt, pol in at)
-            full = tuple(f"{x}/({want_n})" for x in num) + tuple(f"{x}/{want_n}" for x in num)
+            dens = want_dof if role == "redchisq" else (want_n,)
+            full = tuple(f"{x}/({d_})" for x in num for d_ in dens) + tuple(f"{x}/{d_}" for x in num for d_ in dens)
             raw_ok = t in num
             if t in full or t.replace("(", "").replace(")", "") in tuple(f.replace("(", "").replace(")", "") for f in full):
                 det.append(f"{t[:90]}")
@@ -350,11 +354,13 @@ def r36_3(ctx, m):
                       "be non-zero or the numerator is not (a key whose entries are all ignored reports 0, not 0/0 = NaN)", floor=2)
     cfg = cfg_of(mi)
     n = 0
+    counts = {"lsize"} | {st.targets[0].id for st in ast.walk(mi.node) if isinstance(st, ast.Assign) and len(st.targets) == 1 and isinstance(st.targets[0], ast.Name)
+                          and any(isinstance(z, ast.Name) and z.id == "lsize" for z in ast.walk(st.value))}
     for nd in cfg.nodes:
         if nd.kind != "stmt" or nd.ast is None:
             continue
         for b in ast.walk(nd.ast):
-            if isinstance(b, ast.BinOp) and isinstance(b.op, ast.Div) and isinstance(b.right, ast.Name) and b.right.id == "lsize":
+            if isinstance(b, ast.BinOp) and isinstance(b.op, ast.Div) and isinstance(b.right, ast.Name) and b.right.id in counts:
                 n += 1
                 atoms = known_atoms(cfg, nd.id)
                 # the guard `<num> == 0 and lsize == 0` is false on this path
